@@ -7,6 +7,7 @@ import (
 	"math/rand"
 	"testing"
 
+	"github.com/klauspost/compress/zstd"
 	"github.com/restic/restic/internal/backend"
 	"github.com/restic/restic/internal/repository/crypto"
 	"github.com/restic/restic/internal/repository/index"
@@ -16,7 +17,10 @@ import (
 
 // vBogusIndex saves (through the real index code, so the file itself is valid) an index file whose entries are
 // wrong: an existing pack with shifted offsets, a pack that does not exist, or a foreign blob in an existing pack.
-func vBogusIndex(t testing.TB, e *vEnv, r *rand.Rand) (string, error) {
+//
+// minEntries > 0 pads the file with entries of further packs that do not exist until it lists at least that many
+// blobs (so that it counts as a "full" index file when index.Full is scaled down).
+func vBogusIndex(t testing.TB, e *vEnv, r *rand.Rand, minEntries int) (string, error) {
 	repo, err := e.open()
 	if err != nil {
 		return "", err
@@ -55,17 +59,112 @@ func vBogusIndex(t testing.TB, e *vEnv, r *rand.Rand) (string, error) {
 		idx.StorePack(pid, pack.Blobs{{BlobHandle: restic.BlobHandle{ID: restic.Hash([]byte(fmt.Sprintf("foreign-%d", r.Int()))), Type: restic.DataBlob}, Offset: 3, Length: 64}})
 		desc = "bogus-index-foreign-blob"
 	}
+	for n := int(idx.Len(restic.DataBlob) + idx.Len(restic.TreeBlob)); n < minEntries; n += 2 {
+		ghost := restic.Hash([]byte(fmt.Sprintf("ghost-pad-%d", r.Int())))
+		idx.StorePack(ghost, pack.Blobs{
+			{BlobHandle: restic.BlobHandle{ID: restic.Hash([]byte(fmt.Sprintf("gx-%d", r.Int()))), Type: restic.DataBlob}, Offset: 0, Length: 100},
+			{BlobHandle: restic.BlobHandle{ID: restic.Hash([]byte(fmt.Sprintf("gy-%d", r.Int()))), Type: restic.DataBlob}, Offset: 100, Length: 80}})
+	}
+	if minEntries > 0 {
+		desc = "padded-" + desc
+	}
+	if _, err := vPutIndex(e, repo.Key(), idx); err != nil {
+		return "", err
+	}
+	return desc, nil
+}
+
+// vPutIndex stores idx as an index file of the environment (valid encryption, legacy uncompressed encoding,
+// which both repository versions accept).
+func vPutIndex(e *vEnv, key *crypto.Key, idx *index.Index) (string, error) {
 	idx.Finalize()
 	var buf bytes.Buffer
 	if err := idx.Encode(&buf); err != nil {
 		return "", err
 	}
-	// encrypt like an unpacked file (raw JSON is accepted as legacy encoding in both versions)
-	key := repo.Key()
 	nonce := crypto.NewRandomNonce()
 	file := append([]byte{}, nonce...)
 	file = key.Seal(file, nonce, buf.Bytes(), nil)
 	id := restic.Hash(file)
 	e.store.EnvPut(backend.Handle{Type: backend.IndexFile, Name: id.String()}, file)
-	return desc, nil
+	return id.String(), nil
+}
+
+// vDecodeIndexFile decodes one stored index file with restic's own decoder (nil if it cannot be decoded).
+func vDecodeIndexFile(e *vEnv, key *crypto.Key, name string) *index.Index {
+	d, ok := e.store.Get(backend.Handle{Type: backend.IndexFile, Name: name})
+	if !ok || len(d) < 32 {
+		return nil
+	}
+	plain, err := key.Open(nil, d[:key.NonceSize()], d[key.NonceSize():], nil)
+	if err != nil {
+		return nil
+	}
+	if len(plain) > 0 && plain[0] == 2 {
+		dec, _ := zstd.NewReader(nil)
+		defer dec.Close()
+		if plain, err = dec.DecodeAll(plain[1:], nil); err != nil {
+			return nil
+		}
+	}
+	id, _ := restic.ParseID(name)
+	idx, err := index.DecodeIndex(plain, id)
+	if err != nil {
+		return nil
+	}
+	return idx
+}
+
+// vDupIndex adds a second index file describing (part of) what an existing index file describes:
+//   - "index-duplicated": the same pack entries once more in a new file (what an interrupted index rewrite or a
+//     copied-back file leaves behind);
+//   - "index-partial": the original file is replaced by one that lists only some blobs of one of its packs (the
+//     rest of that pack is described nowhere) - cf. restic < 0.10 splitting the blobs of a pack over several files;
+//   - "index-split": the blobs of one pack are spread over two files, the original is removed.
+func vDupIndex(e *vEnv, r *rand.Rand, kind string) (string, error) {
+	repo, err := e.open()
+	if err != nil {
+		return "", err
+	}
+	names := e.store.Names(backend.IndexFile)
+	if len(names) == 0 {
+		return "", fmt.Errorf("no index")
+	}
+	name := names[r.Intn(len(names))]
+	old := vDecodeIndexFile(e, repo.Key(), name)
+	if old == nil {
+		return "", fmt.Errorf("index not decodable")
+	}
+	var pbs []index.PackBlobs
+	for pb := range old.EachByPack(context.Background(), restic.NewIDSet()) {
+		pbs = append(pbs, pb)
+	}
+	if len(pbs) == 0 {
+		return "", fmt.Errorf("empty index")
+	}
+	a, b := index.NewIndex(), index.NewIndex()
+	v := r.Intn(len(pbs))
+	for i, pb := range pbs {
+		blobs := pb.Blobs
+		if kind != "index-duplicated" && i == v && len(blobs) >= 2 {
+			cut := 1 + r.Intn(len(blobs)-1)
+			a.StorePack(pb.PackID, blobs[:cut])
+			b.StorePack(pb.PackID, blobs[cut:])
+			continue
+		}
+		a.StorePack(pb.PackID, blobs)
+	}
+	if _, err := vPutIndex(e, repo.Key(), a); err != nil {
+		return "", err
+	}
+	if kind == "index-duplicated" {
+		return kind, nil
+	}
+	if kind == "index-split" && b.Len(restic.DataBlob)+b.Len(restic.TreeBlob) > 0 {
+		if _, err := vPutIndex(e, repo.Key(), b); err != nil {
+			return "", err
+		}
+	}
+	e.store.EnvRemove(backend.Handle{Type: backend.IndexFile, Name: name})
+	return kind, nil
 }
